@@ -49,7 +49,7 @@ fn shape_knob(c: usize) -> Option<(usize, usize)> {
 ///
 /// knobs: 0 Sigmoid applied to a different value (Neg(x)), 1 extra Shape consumer of the Sigmoid output.
 pub fn silu(g: &mut G) -> Vid {
-    g.nk = 2;
+    g.knobs(&["othersig", "shapeuse"]);
     let shape = g.base_shape(0, 4);
     let x = g.ctx_input(&shape);
     let sx = if g.kc(0, 2) == 1 { g.un("Neg", x) } else { x };
@@ -68,7 +68,7 @@ pub fn silu(g: &mut G) -> Vid {
 /// knobs: 0 alpha shape ([] / [1] / [1;r] / [1;r+1] / vector), 1 inner form (Mul / Div(x, c) / Mul(alpha, Neg(x))),
 /// 2 alpha is a graph input instead of a constant.
 pub fn swish(g: &mut G) -> Vid {
-    g.nk = 3;
+    g.knobs(&["alphashape", "inner", "alphainput"]);
     let shape = g.base_shape(0, 4);
     let x = g.ctx_input(&shape);
     let alpha_v = [1.702f32, 1.5, 0.5, 2.0][g.free(1, 4)];
@@ -103,7 +103,7 @@ pub fn swish(g: &mut G) -> Vid {
 /// 2 Erf applied to a different value, 3 scaling by the inverse constant (x / (1/sqrt2)).
 /// Free: Div vs Mul spelling, bracketing and order of the product, order of the Add.
 pub fn gelu(g: &mut G) -> Vid {
-    g.nk = 4;
+    g.knobs(&["off", "cshape", "othererf", "invscale"]);
     let shape = g.base_shape(0, 4);
     let x = g.ctx_input(&shape);
     let off = g.kc(0, 4);
@@ -138,7 +138,7 @@ pub fn gelu(g: &mut G) -> Vid {
 /// knobs: 0 one constant off (0.5 / 1 / sqrt(2/pi) / 3 / 0.044715), 1 one constant with shape variant,
 /// 2 Pow(x,3) spelled x*x*x, 3 inner x is a different value.
 pub fn approx_gelu(g: &mut G) -> Vid {
-    g.nk = 4;
+    g.knobs(&["off", "cshape", "nopow", "otherx"]);
     let shape = g.base_shape(0, 4);
     let x = g.ctx_input(&shape);
     let off = g.kc(0, 6);
